@@ -338,6 +338,8 @@ run_case(Ctx& ctx)
       sc.reset(new Scanner(t));
       if (sc->get_num_detectors_per_ring() % 2 || sc->get_scanner_geometry() != "Cylindrical")
         throw vf::Skip("predefined scanner not cylindrical/even");
+      if (sc->get_num_rings() < 1 || sc->get_num_detectors_per_ring() < 4)
+        throw vf::Skip("predefined scanner type without ring/detector description"); // e.g. HiDAC (0 rings)
       ss.ndet = sc->get_num_detectors_per_ring();
       ss.nrings = sc->get_num_rings();
       ss.tof_bins = sc->is_tof_ready() ? sc->get_max_num_timing_poss() : 0;
